@@ -27,8 +27,15 @@
 
    M layer = Prime / BuildDev / BuildRel / CleanDev / CleanRel transcribed from the code.
    P layer = the properties at the end.  `Weak` switches off single mechanisms (self-test of
-   the invariants, *_weak_*.cfg, each must be VIOLATED).  `KeepRule` = "prefix" is the code,
-   "always" the proposed fix for the Stable finding.                                      *)
+   the invariants, *_weak_*.cfg, each must be VIOLATED).  `KeepRule` = "prefix" is the code as of
+   this writing, "always" the proposed fix for the Stable finding (mutants/fix_c16_*.diff); the
+   check probes the code and runs every config with the rule that the code implements.
+
+   Configs: DevDirs.cfg, _num, _nested (quick exhaustive); _thorough, _num_thorough, _src,
+   _stable_fixed (thorough); _stable (P-level Stable on the mechanism as coded: VIOLATED with
+   "prefix" - two packages of a multiPackage share a key, the stored directory is named after the
+   one visited first, and a change of the visiting order renames it); _weak_* (self-test);
+   _reach_* (vacuity); _gen* (behaviour generation, SpecDev = project changes and primes only). *)
 EXTENDS Naturals, Sequences, FiniteSets, TLC, Json
 
 CONSTANTS Pkg,        \* package names
@@ -256,6 +263,9 @@ Spec == Init /\ [][Next]_vars
 \* generation of appear/disappear histories for the directory oracle alone
 NextDev == ProjectChange \/ Prime
 SpecDev == Init /\ [][NextDev]_vars
+\* generation of single-mode histories (the mixed ones rarely stay long enough in one mode)
+SpecDevMode == Init /\ [][ProjectChange \/ Prime \/ BuildDev \/ CleanDev]_vars
+SpecRelMode == Init /\ [][ProjectChange \/ BuildRel \/ CleanRel]_vars
 
 ----------------------------------------------------------------------------
 (* P layer *)
